@@ -81,11 +81,15 @@ class SwapAnalysis(progcheck.ProgramAnalysis):
         skel_old = self.dsp_skel
         skel_new = pj_new['fns'][pj_new['dsp_index']]['state_skeleton']
         size_old, size_new = skel_total(skel_old), skel_total(skel_new)
+        if size_old > 96 or size_new > 96:
+            r['status'] = 'skipped_large_state'      # every state word is symbolic here: keep the query size bounded (stated in evidence)
+            return
         same_src = (self.new_path == self.path)
         smt, it = self.new_interp()
         self.smt, self.it = smt, it
         ex = Explorer(smt, self.max_paths)
         deadline = time.time() + self.time_budget_s
+        it.deadline = deadline
         an = self
 
         def child_ranges(sk):
